@@ -216,6 +216,15 @@ func (ex *Exec) yield(what string) {
 	ex.switchTo(n, g)
 }
 
+// gosched: runtime.Gosched in cooperative mode: let the next live goroutine run; the caller stays runnable.
+func (ex *Exec) gosched() {
+	co := ex.co
+	g := co.cur
+	if n := co.next(g); n != g {
+		ex.switchTo(n, g)
+	}
+}
+
 // endCoop is called when the path is over: every parked goroutine unwinds without running target code.
 func (ex *Exec) endCoop() {
 	co := ex.co
